@@ -95,7 +95,7 @@ pub struct TagCase {
 }
 
 pub fn attr_pool() -> Vec<RV> {
-    vec![RV::Int(0), RV::Int(1), RV::Int(2), RV::Int(-1), RV::Int(10_000), RV::Int(i64::MAX), RV::Int(i64::MIN), st("3"), st("x"), fl(1.5), RV::Nil, RV::Bool(true), RV::Arr(vec![]), obj(vec![])]
+    vec![RV::Int(0), RV::Int(1), RV::Int(2), RV::Int(-1), RV::Int(10_000), RV::Int(i64::MAX), RV::Int(i64::MIN), st("3"), st("x"), fl(1.5), RV::Nil, RV::Bool(true), RV::Arr(vec![]), obj(vec![]), st(&format!("x{}", "é".repeat(40))), st("0")]
 }
 
 fn render_checked(src: &str, data: &RV, partials: &[(String, String)], obs: &mut Obs, what: &str) -> Check {
